@@ -197,8 +197,13 @@ def op_update(op, kind='vars', ts=1):
         return {c: {'_generate': [g]}}
     if name == 'div':
         _, c, k = op
+        d0 = {'key': k + '0'}
+        if k[0] == 'a':
+            # an explicit initial state for ONE daughter overrides the
+            # divider's share (w: 'set' divider, i.e. the mother's value)
+            d0['initial_state'] = {'w': 9}
         return {c: {'_divide': {'mother': k, 'daughters': [
-            {'key': k + '0'}, {'key': k + '1'}]}}}
+            d0, {'key': k + '1'}]}}}
     if name == 'mov':
         _, c, k, d = op
         return {c: {'_move': [{'source': (k,), 'target': move_target(k, d)}]}}
@@ -367,6 +372,8 @@ class Model:
                 d = dict(m)
                 d['cell'] = object()
                 d['born'] = self.now      # daughters keep the mother's ts
+                if i == '0' and k[0] == 'a':
+                    d['w'] = 9            # explicit initial state
                 self.t[c][k + i] = d
         elif name in ('mov', 'movupd'):
             _, c, k, d = op
